@@ -43,6 +43,9 @@ pub enum Op {
     ConnectCancelled,
     /// the peer connects to one of our listeners and we accept it
     AcceptFromPeer(u16),
+    /// connect to one of our own listeners through 127.0.0.1 / ::1 and accept it: two live
+    /// streams on this host whose local address is the loopback address
+    ConnectLoopback(u16),
     Drop(u16),
     CrashBounce,
 }
@@ -75,6 +78,8 @@ enum K {
     Stream,
     /// accepted from the peer (the peer holds an ephemeral port of its own for it)
     Accepted,
+    /// accepted end of a loopback connection made by this host itself
+    LoopAccepted,
 }
 
 #[derive(Default)]
@@ -94,6 +99,9 @@ struct PState {
     ops_done: u64,
     crashes: u64,
     refused: u64,
+    loopback: u64,
+    /// parallel to `socks`: loopback pair id (0 = none); both ends of a pair are dropped together
+    pair: Vec<u32>,
 }
 
 const LO: u16 = 50000;
@@ -110,7 +118,7 @@ fn in_use(st: &PState) -> (BTreeSet<u16>, BTreeSet<u16>, BTreeSet<u16>) {
             (K::Lis, p) => {
                 lis.insert(*p);
             }
-            (K::Stream, p) | (K::Accepted, p) => {
+            (K::Stream, p) | (K::Accepted, p) | (K::LoopAccepted, p) => {
                 streams.insert(*p);
             }
         }
@@ -207,6 +215,7 @@ async fn port_host(sh: Rc<RefCell<PState>>, range_len: u16, v6: bool) -> turmoil
                             st.fail.get_or_insert(("udp-bind-succeeded-on-port-in-use".into(), format!("port {want}; udp {u:?}")));
                         }
                         st.socks.push((K::Udp, p));
+                        st.pair.push(0);
                         mine.push(Sock::Udp(s, p));
                     }
                     Err(e) => {
@@ -243,6 +252,7 @@ async fn port_host(sh: Rc<RefCell<PState>>, range_len: u16, v6: bool) -> turmoil
                             st.fail.get_or_insert(("tcp-listen-succeeded-on-port-in-use".into(), format!("port {want}; listeners {l:?}")));
                         }
                         st.socks.push((K::Lis, p));
+                        st.pair.push(0);
                         mine.push(Sock::Lis(s, p));
                     }
                     Err(e) => {
@@ -271,6 +281,7 @@ async fn port_host(sh: Rc<RefCell<PState>>, range_len: u16, v6: bool) -> turmoil
                         let p = s.local_addr().unwrap().port();
                         note_ephemeral(&mut st, p, range_len, "tcp-connect");
                         st.socks.push((K::Stream, p));
+                        st.pair.push(0);
                         mine.push(Sock::Stream(s, p));
                     }
                     Err(e) => {
@@ -342,6 +353,7 @@ async fn port_host(sh: Rc<RefCell<PState>>, range_len: u16, v6: bool) -> turmoil
                             st.fail.get_or_insert(("accepted-stream-wrong-local-port".into(), format!("listener {port}, stream {lp}")));
                         }
                         st.socks.push((K::Accepted, lp));
+                        st.pair.push(0);
                         mine.push(Sock::Stream(s, lp));
                     }
                     Ok(Err(e)) => {
@@ -352,16 +364,73 @@ async fn port_host(sh: Rc<RefCell<PState>>, range_len: u16, v6: bool) -> turmoil
                     }
                 }
             }
+            Op::ConnectLoopback(i) => {
+                let target = {
+                    let st = sh.borrow();
+                    let ls: Vec<usize> = st.socks.iter().enumerate().filter(|(_, s)| s.0 == K::Lis).map(|(k, _)| k).collect();
+                    if ls.is_empty() || free_ports(&st, range_len).is_empty() {
+                        None
+                    } else {
+                        Some(ls[pick(i, ls.len())])
+                    }
+                };
+                let Some(idx) = target else { continue };
+                let port = mine[idx].port();
+                sh.borrow_mut().expecting_free = true;
+                let lo = if v6 { "::1" } else { "127.0.0.1" };
+                let (c, a) = match &mine[idx] {
+                    Sock::Lis(l, _) => tokio::join!(TcpStream::connect((lo, port)), tokio::time::timeout(Duration::from_millis(50), l.accept())),
+                    _ => unreachable!(),
+                };
+                let mut st = sh.borrow_mut();
+                st.expecting_free = false;
+                st.ops_done += 1;
+                match (c, a) {
+                    (Ok(cs), Ok(Ok((as_, _)))) => {
+                        let p = cs.local_addr().unwrap().port();
+                        if !cs.local_addr().unwrap().ip().is_loopback() {
+                            st.fail.get_or_insert(("loopback-connect-local-address-not-loopback".into(), format!("{:?}", cs.local_addr())));
+                        }
+                        note_ephemeral(&mut st, p, range_len, "tcp-connect-loopback");
+                        st.loopback += 1;
+                        let id = st.loopback as u32;
+                        st.socks.push((K::Stream, p));
+                        st.pair.push(id);
+                        mine.push(Sock::Stream(cs, p));
+                        st.socks.push((K::LoopAccepted, port));
+                        st.pair.push(id);
+                        mine.push(Sock::Stream(as_, port));
+                    }
+                    (c, a) => {
+                        st.fail.get_or_insert(("loopback-connect-or-accept-failed".into(), format!("connect {:?} accept ok={}", c.map(|_| ()).map_err(|e| e.kind()), matches!(a, Ok(Ok(_))))));
+                    }
+                }
+            }
             Op::Drop(i) => {
                 let mut st = sh.borrow_mut();
                 if st.socks.is_empty() {
                     continue;
                 }
                 let k = pick(i, st.socks.len());
-                st.socks.remove(k);
+                // both ends of a loopback connection live on this host: drop them together, so
+                // that the 4-tuple is free before the client port can be handed out again
+                let id = st.pair[k];
+                let mut victims: Vec<usize> = if id == 0 { vec![k] } else { (0..st.socks.len()).filter(|j| st.pair[*j] == id).collect() };
+                victims.sort();
                 st.ops_done += 1;
+                let mut dropped = Vec::new();
+                for j in victims.into_iter().rev() {
+                    st.socks.remove(j);
+                    st.pair.remove(j);
+                    dropped.push(mine.remove(j));
+                }
                 drop(st);
-                drop(mine.remove(k));
+                drop(dropped);
+                if id != 0 {
+                    // let the FINs of the closed loopback connection (delivered one tick later)
+                    // drain before the same 4-tuple can be used again
+                    tokio::time::sleep(Duration::from_millis(3)).await;
+                }
             }
             Op::CrashBounce => {
                 {
@@ -474,6 +543,7 @@ pub fn run_ports(sc: &PortScenario) -> Outcome {
             {
                 let mut st = sh.borrow_mut();
                 st.socks.clear();
+                st.pair.clear();
                 st.crashes += 1;
                 st.idle = false;
             }
@@ -505,6 +575,9 @@ pub fn run_ports(sc: &PortScenario) -> Outcome {
     }
     if st.refused > 0 {
         out.label("failed-or-cancelled-connect");
+    }
+    if st.loopback > 0 {
+        out.label("loopback-stream");
     }
     out.count("port ops executed", st.ops_done);
     out.nontrivial = st.wraps >= 1 && st.skipped_in_use >= 1;
@@ -707,6 +780,7 @@ pub fn port_strategy() -> BoxedStrategy<PortScenario> {
                 1 => Just(Op::ConnectNowhere),
                 1 => Just(Op::ConnectCancelled),
                 2 => any::<u16>().prop_map(Op::AcceptFromPeer),
+                2 => any::<u16>().prop_map(Op::ConnectLoopback),
                 6 => any::<u16>().prop_map(Op::Drop),
                 1 => Just(Op::CrashBounce),
             ];
